@@ -80,18 +80,18 @@ func pfPrelude() []pfCase {
 		st("app.x.io", "/", pfCookie{Kind: "garbage"}, nil),
 		st("app.x.io", "/", pfCookie{Kind: "otherkey", Sess: pfGoodSess("app.x.io")}, nil),
 		st("app.x.io", "/", pfCookie{Kind: "flowrec"}, nil),
-		st("app.x.io", "/a/b?q=1", S("app.x.io", nil), nil),                                                     // fresh: forwarded
-		st("app.x.io", "/", S("app.x.io", func(s *pfSess) { s.Slug = "okta" }), nil),                            // wrong IdP
-		st("app.x.io", "/", S("api.x.io", nil), nil),                                                            // other upstream's session
-		st("app.x.io", "/", S("app.x.io", func(s *pfSess) { s.Lifetime = -10 }), nil),                           // lifetime over
-		st("app.x.io", "/", S("app.x.io", func(s *pfSess) { s.Valid = -10 }), nil),                              // revalidate ok
+		st("app.x.io", "/a/b?q=1", S("app.x.io", nil), nil),                           // fresh: forwarded
+		st("app.x.io", "/", S("app.x.io", func(s *pfSess) { s.Slug = "okta" }), nil),  // wrong IdP
+		st("app.x.io", "/", S("api.x.io", nil), nil),                                  // other upstream's session
+		st("app.x.io", "/", S("app.x.io", func(s *pfSess) { s.Lifetime = -10 }), nil), // lifetime over
+		st("app.x.io", "/", S("app.x.io", func(s *pfSess) { s.Valid = -10 }), nil),    // revalidate ok
 		st("app.x.io", "/", S("app.x.io", func(s *pfSess) { s.Valid = -10 }), func(s *pfStep) { s.Validate = pfReply{Kind: "status", Status: 401} }),
 		st("app.x.io", "/", S("app.x.io", func(s *pfSess) { s.Valid = -10 }), func(s *pfStep) { s.Validate = pfReply{Kind: "transport"} }),
 		st("app.x.io", "/", S("app.x.io", func(s *pfSess) { s.Valid = -10 }), func(s *pfStep) { s.Validate = pfReply{Kind: "status", Status: 503} }), // grace starts
 		st("app.x.io", "/", S("app.x.io", func(s *pfSess) { s.Valid = -10; s.Grace = i64(-290) }), func(s *pfStep) { s.Validate = pfReply{Kind: "status", Status: 429} }),
 		st("app.x.io", "/", S("app.x.io", func(s *pfSess) { s.Valid = -10; s.Grace = i64(-310) }), func(s *pfStep) { s.Validate = pfReply{Kind: "status", Status: 503} }), // grace over
-		st("app.x.io", "/", S("app.x.io", func(s *pfSess) { s.Valid = -10; s.Grace = i64(-100) }), nil),         // success resets grace
-		st("app.x.io", "/", S("app.x.io", func(s *pfSess) { s.Refresh = -10 }), nil),                            // refresh ok
+		st("app.x.io", "/", S("app.x.io", func(s *pfSess) { s.Valid = -10; s.Grace = i64(-100) }), nil),                                                                   // success resets grace
+		st("app.x.io", "/", S("app.x.io", func(s *pfSess) { s.Refresh = -10 }), nil),                                                                                      // refresh ok
 		st("app.x.io", "/", S("app.x.io", func(s *pfSess) { s.Refresh = -10 }), func(s *pfStep) { s.Refresh = pfReply{Kind: "status", Status: 401} }),
 		st("app.x.io", "/", S("app.x.io", func(s *pfSess) { s.Refresh = -10 }), func(s *pfStep) { s.Refresh = pfReply{Kind: "status", Status: 500} }),
 		st("app.x.io", "/", S("app.x.io", func(s *pfSess) { s.Refresh = -10 }), func(s *pfStep) { s.Refresh = pfReply{Kind: "status", Status: 503} }),
@@ -99,12 +99,14 @@ func pfPrelude() []pfCase {
 		st("app.x.io", "/", S("app.x.io", func(s *pfSess) { s.Refresh = -10 }), func(s *pfStep) { s.Refresh = pfReply{Kind: "malformed"} }),
 		st("app.x.io", "/", S("app.x.io", func(s *pfSess) { s.Refresh = -10 }), func(s *pfStep) { s.Refresh = pfReply{Kind: "transport"} }),
 		st("app.x.io", "/", S("app.x.io", func(s *pfSess) { s.Refresh = -10; s.RefreshTok = "" }), nil),
-		st("app.x.io", "/", S("app.x.io", func(s *pfSess) { s.Email = "ann@evil.io" }), nil),                    // domain rule fails on request
-		st("app.x.io", "/", S("app.x.io", func(s *pfSess) { s.Email = "ann@evil.io"; s.Valid = -10 }), nil),     // saved, then refused
-		st("app.x.io", "/health", none, nil),                                                                    // skip-auth
-		st("app.x.io", "/health", none, func(s *pfStep) { s.Headers = map[string]string{"X-Forwarded-Email": "root@x.io", "X-Forwarded-User": "root"} }),
+		st("app.x.io", "/", S("app.x.io", func(s *pfSess) { s.Email = "ann@evil.io" }), nil),                // domain rule fails on request
+		st("app.x.io", "/", S("app.x.io", func(s *pfSess) { s.Email = "ann@evil.io"; s.Valid = -10 }), nil), // saved, then refused
+		st("app.x.io", "/health", none, nil), // skip-auth
+		st("app.x.io", "/health", none, func(s *pfStep) {
+			s.Headers = map[string]string{"X-Forwarded-Email": "root@x.io", "X-Forwarded-User": "root"}
+		}),
 		st("app.x.io", "/healthz", none, nil),
-		st("app.x.io", "/public/../private", none, nil),                                                         // cleaned by the router first
+		st("app.x.io", "/public/../private", none, nil), // cleaned by the router first
 		st("app.x.io", "/oauth2/auth", S("app.x.io", nil), nil),
 		st("app.x.io", "/oauth2/auth", none, nil),
 		st("app.x.io", "/oauth2/auth", S("app.x.io", func(s *pfSess) { s.Lifetime = -10 }), nil),
@@ -114,15 +116,15 @@ func pfPrelude() []pfCase {
 		st("app.x.io", "/oauth2/sign_out", S("app.x.io", nil), nil),
 		st("app.x.io", "/oauth2/sign_out", none, nil),
 		st("app.x.io", "/ping", none, nil),
-		st("nope.x.io", "/", none, nil),                                                                          // 421
-		st("APP.x.io", "/", S("app.x.io", nil), nil),                                                             // case variant: no static match
+		st("nope.x.io", "/", none, nil),              // 421
+		st("APP.x.io", "/", S("app.x.io", nil), nil), // case variant: no static match
 	}})
 	// group-protected upstream with its own provider slug
 	cases = append(cases, pfCase{Cfg: base, Steps: []pfStep{
 		st("api.x.io", "/", none, nil),
 		st("api.x.io", "/", S("api.x.io", nil), nil),
 		st("api.x.io", "/", S("api.x.io", func(s *pfSess) { s.Slug = "okta" }), nil),
-		st("api.x.io", "/", SA(func(s *pfSess) { s.Valid = -10 }), func(s *pfStep) { s.Profile = pfReply{Kind: "ok", Groups: []string{"ops"}} }),          // left the group
+		st("api.x.io", "/", SA(func(s *pfSess) { s.Valid = -10 }), func(s *pfStep) { s.Profile = pfReply{Kind: "ok", Groups: []string{"ops"}} }), // left the group
 		st("api.x.io", "/", SA(func(s *pfSess) { s.Valid = -10 }), func(s *pfStep) { s.Profile = pfReply{Kind: "ok", Groups: []string{"ops", "eng"}} }),
 		st("api.x.io", "/", SA(func(s *pfSess) { s.Valid = -10 }), func(s *pfStep) { s.Profile = pfReply{Kind: "status", Status: 503} }),
 		st("api.x.io", "/", SA(func(s *pfSess) { s.Valid = -10 }), func(s *pfStep) { s.Profile = pfReply{Kind: "status", Status: 500} }),
@@ -137,7 +139,7 @@ func pfPrelude() []pfCase {
 		st("api.x.io", "/", SA(func(s *pfSess) { s.Valid = -10; s.Grace = i64(-100) }), func(s *pfStep) { s.Profile = pfReply{Kind: "status", Status: 429} }),
 		st("api.x.io", "/", SA(func(s *pfSess) { s.Refresh = -10; s.Grace = i64(-100) }), nil), // all endpoints back: grace reset
 		st("foo.apps.x.io", "/", none, nil),
-		st("foo.apps.x.io", "/", S("foo.apps.x.io", nil), nil),                                     // address ok, domain rule fails: all-of on requests
+		st("foo.apps.x.io", "/", S("foo.apps.x.io", nil), nil),                                      // address ok, domain rule fails: all-of on requests
 		st("foo.apps.x.io", "/", S("foo.apps.x.io", func(s *pfSess) { s.Email = "bob@y.io" }), nil), // domain ok, address fails
 		st("foo.apps.x.io", "/", S("bar.apps.x.io", nil), nil),
 		// one upstream (one provider) serving several hosts: every sign-out gets a return address on *its* host, whatever came before
@@ -212,6 +214,13 @@ func pfPrelude() []pfCase {
 		st("app.x.io", "/", S("app.x.io", func(s *pfSess) { s.Email = "x@evil.io" }), func(s *pfStep) { s.Proto = "https" }),
 		st("nope.x.io", "/", none, func(s *pfStep) { s.Proto = "https" }),
 	}})
+	// two upstreams, same provider slug, different group rules; the user is in the first one's group only
+	ov := pfBaseCfg()
+	ov.Upstreams[0].Domains, ov.Upstreams[0].Groups = nil, []string{"eng"}
+	ov.Upstreams[1].Slug, ov.Upstreams[1].Groups = "", []string{"ops"}
+	cases = append(cases, pfCase{Cfg: ov, Overlap: &pfOverlapIn{HostA: "app.x.io", HostB: "api.x.io", UserGroups: []string{"eng"}}})
+	cases = append(cases, pfCase{Cfg: ov, Overlap: &pfOverlapIn{HostA: "api.x.io", HostB: "app.x.io", UserGroups: []string{"ops"}}})
+	cases = append(cases, pfCase{Cfg: ov, Overlap: &pfOverlapIn{HostA: "app.x.io", HostB: "api.x.io", UserGroups: []string{"eng", "ops"}}})
 	return cases
 }
 
